@@ -13,14 +13,18 @@ import os
 import vf
 
 # which projected fields speak for which property
+# Attribution of a deviation (first differing field of the projection) to properties: the state of logs,
+# applied entries and acknowledgements is what C01-C03, C07 and C08 all quantify over; purely internal
+# bookkeeping (cursors, parked rounds, in-flight message fields) speaks for the pipeline properties only.
+CORE = {"wal", "applied", "acked", "panic"}
 FIELDS = {
-    "C01": {"acked", "applied", "wal", "tracker", "panic"},
-    "C02": {"applied", "acked", "status", "panic"},
-    "C03": {"wal", "acks", "synced", "streams", "lastapp", "cursors", "panic"},
-    "C04": {"outcome", "status", "term", "wal", "lastapp", "ctrl", "panic"},
+    "C01": CORE | {"tracker", "acks", "synced", "outcome", "ctrl", "status"},
+    "C02": CORE | {"status", "tracker", "ctrl"},
+    "C03": CORE | {"acks", "synced", "streams", "lastapp", "cursors", "ctrl", "tracker"},
+    "C04": {"outcome", "status", "term", "wal", "lastapp", "ctrl", "synced", "applied", "acks", "panic"},
     "C05": {"term", "dbterm", "status", "outcome", "ctrl", "busy", "panic"},
-    "C07": {"applied", "dbterm", "synced", "wal", "panic"},
-    "C08": {"tracker", "acked", "applied", "streams", "acks", "cursors", "parked", "panic"},
+    "C07": CORE | {"dbterm", "synced", "tracker"},
+    "C08": CORE | {"tracker", "streams", "acks", "cursors", "parked", "synced", "busy"},
 }
 
 INVARIANTS = {
@@ -96,6 +100,7 @@ def findings_reached(ctx, pid, runs, res, origin):
     was recorded by the specification; anything else is a new violation."""
     bad_idx = {m["index"]: m["step"] for m in (res.get("mismatches") or [])}
     listed = {f["id"]: f for f in vf.findings_for(pid)}
+    all_listed = {f.get("id") for f in vf.load_known_findings().get("findings", [])}
     seen = set()
     with open(runs) as f:
         for idx, line in enumerate(f):
@@ -112,9 +117,9 @@ def findings_reached(ctx, pid, runs, res, origin):
                     continue
                 kf = sorted(exp.get("kf") or [])
                 calls = " ".join(describe(x) for x in beh[:k + 1] if x["a"] != "Idle")
-                if kf and all(i in listed for i in kf):
-                    for i in kf:
-                        if i not in seen:
+                if kf and all(i in all_listed for i in kf) and any(i in listed for i in kf):
+                    for i in [x for x in kf if x in listed]:
+                        if i not in seen and not any(k.startswith(i + ":") for k in ctx.known):
                             seen.add(i)
                             ctx.known_finding("%s: %s [%s false after: %s]" % (i, listed[i]["what"], ",".join(false), calls[:700]))
                 else:
@@ -270,7 +275,7 @@ def run(ctx, pid):
         coordinator_traces(ctx, pid, 120 if quick else 1500)
     # 2. spec -> code replay
     binp = ctx.go_build("shardsim")
-    num = 400 if quick else 6000
+    num = 300 if quick else 6000
     r = ctx.tlc("OxiaShardSim", "shard-runs.cfg", simulate="num=%d" % num, depth=41, workers=1, label="sim")
     runs = os.path.join(ctx.scratch, "runs.ndjson")
     n = export_runs(ctx, r, runs)
@@ -279,6 +284,13 @@ def run(ctx, pid):
     res = replay(ctx, binp, runs, "sim")
     other = report(ctx, pid, res, "sim")
     reached = findings_reached(ctx, pid, runs, res, "sim")
+    # the same with a spare node and a node swap (ensemble change, removed node deleted after the election)
+    r = ctx.tlc("OxiaShardSim", "shard-runs-swap.cfg", simulate="num=%d" % (num // 4), depth=56, workers=1, label="simswap")
+    sruns = os.path.join(ctx.scratch, "runs-swap.ndjson")
+    if export_runs(ctx, r, sruns):
+        sres = replay(ctx, binp, sruns, "sim-swap")
+        other += report(ctx, pid, sres, "simswap")
+        reached |= findings_reached(ctx, pid, sruns, sres, "simswap")
     # witness schedules (shortest behaviours reaching each branch condition of the specification)
     wruns = os.path.join(ctx.scratch, "witness.ndjson")
     nw, names = witness_runs(ctx, wruns)
@@ -289,7 +301,7 @@ def run(ctx, pid):
         ctx.notes["known_findings_reproduced"] = sorted(reached)
         # ... and random continuations from the states the witnesses reach
         cruns = os.path.join(ctx.scratch, "wsim.ndjson")
-        nc = witness_continuations(ctx, cruns, 12 if quick else 150)
+        nc = witness_continuations(ctx, cruns, 8 if quick else 150)
         if nc:
             cres = replay(ctx, binp, cruns, "witness-continuations")
             other += report(ctx, pid, cres, "wcont")
